@@ -1482,4 +1482,22 @@ theorem safeRun_append (s s1 : St) (es fs : List Ev) (h : SafeRun s (es ++ fs))
         rw [hst] at e1; exact (Option.some.inj e1).symm
       subst this; exact g1
 
+/-- executable form of `SafeRun` along the (deterministic) run -/
+def safeRunB : St → List Ev → Bool
+  | _, [] => true
+  | s, e :: es => !clearsLive s e && (match step s e with
+                                      | some s' => safeRunB s' es
+                                      | none => true)
+
+theorem safeRun_of_bool (s : St) (es : List Ev) (h : safeRunB s es = true) : SafeRun s es := by
+  induction es generalizing s with
+  | nil => trivial
+  | cons e es ih =>
+    simp only [safeRunB, Bool.and_eq_true] at h
+    refine ⟨by simpa using h.1, ?_⟩
+    intro s' hs'
+    have h2 := h.2
+    simp only [hs'] at h2
+    exact ih s' h2
+
 end UtilModel.Routine
